@@ -406,12 +406,39 @@ def splice(gnode, call, target_kind, target, caller_locals, is_method=False):
 
 
 class _Inliner:
+    BUDGET = 120          # spliced call sites per module: a clean-up extracts a handful of helpers, not hundreds
+
     def __init__(self, tree, new_funcs):
         """new_funcs: {qualname in module: (node, class node, parent function node)}"""
         self.tree = tree
-        self.new = new_funcs
         self.count = 0
         self.failed = {}
+        # helpers that (transitively) call themselves are never spliced
+        names = {q: v[0].name for q, v in new_funcs.items()}
+        calls = {}
+        for q, (g, gcls, gparent) in new_funcs.items():
+            used = set()
+            for n in ast.walk(g):
+                if isinstance(n, ast.Call):
+                    f = n.func
+                    nm = f.id if isinstance(f, ast.Name) else (f.attr if isinstance(f, ast.Attribute) else None)
+                    if nm in names.values():
+                        used.add(nm)
+            calls[g.name] = used
+        recursive = set()
+        for nm in calls:
+            seen, todo = set(), list(calls[nm])
+            while todo:
+                c = todo.pop()
+                if c == nm:
+                    recursive.add(nm)
+                    break
+                if c not in seen:
+                    seen.add(c)
+                    todo.extend(calls.get(c, ()))
+        self.new = {q: v for q, v in new_funcs.items() if v[0].name not in recursive}
+        for nm in recursive:
+            self.failed[nm] = 'recursive helper' 
 
     def resolve(self, call, fnode, cls, chain):
         f = call.func
@@ -483,6 +510,9 @@ class _Inliner:
             return None
         g, is_method = self.resolve(call, fnode, cls, chain)
         if g is None or g is fnode or g in chain:
+            return None
+        if self.count >= self.BUDGET:
+            self.failed[g.name] = 'inlining budget exhausted'
             return None
         try:
             return splice(g, call, kind, target, set(self._orig_locals), is_method)
